@@ -655,6 +655,7 @@ static const range_t kNullRange = { NULL, 0 };
 typedef struct {
     size_t   consumed;                   /* SHARED - set0 by mtctx, then modified by worker AND read by mtctx */
     size_t   cSize;                      /* SHARED - set0 by mtctx, then modified by worker AND read by mtctx, then set0 by mtctx */
+    unsigned workerActive;               /* SHARED - set1 by mtctx when the job is handed to a worker, set0 by the worker when it no longer uses the job description */
     ZSTD_pthread_mutex_t job_mutex;      /* Thread-safe - used by mtctx and worker */
     ZSTD_pthread_cond_t job_cond;        /* Thread-safe - used by mtctx and worker */
     ZSTDMT_CCtxPool* cctxPool;           /* Thread-safe - used by mtctx and (all) workers */
@@ -802,6 +803,7 @@ _endJob:
     if (ZSTD_isError(job->cSize)) assert(lastCBlockSize == 0);
     job->cSize += lastCBlockSize;
     job->consumed = job->src.size;  /* when job->consumed == job->src.size , compression job is presumed completed */
+    job->workerActive = 0;   /* needed for empty jobs, for which consumed == src.size from the start */
     ZSTD_pthread_cond_signal(&job->job_cond);
     ZSTD_pthread_mutex_unlock(&job->job_mutex);
 }
@@ -1020,7 +1022,8 @@ static void ZSTDMT_waitForAllJobsCompleted(ZSTDMT_CCtx* mtctx)
     while (mtctx->doneJobID < mtctx->nextJobID) {
         unsigned const jobID = mtctx->doneJobID & mtctx->jobIDMask;
         ZSTD_PTHREAD_MUTEX_LOCK(&mtctx->jobs[jobID].job_mutex);
-        while (mtctx->jobs[jobID].consumed < mtctx->jobs[jobID].src.size) {
+        while ( (mtctx->jobs[jobID].consumed < mtctx->jobs[jobID].src.size)
+             || mtctx->jobs[jobID].workerActive ) {   /* an empty job is only complete once its worker says so */
             DEBUGLOG(4, "waiting for jobCompleted signal from job %u", mtctx->doneJobID);   /* we want to block when waiting for data to flush */
             ZSTD_pthread_cond_wait(&mtctx->jobs[jobID].job_cond, &mtctx->jobs[jobID].job_mutex);
         }
@@ -1455,11 +1458,13 @@ static size_t ZSTDMT_createCompressionJob(ZSTDMT_CCtx* mtctx, size_t srcSize, ZS
                 mtctx->jobs[jobID].lastJob,
                 mtctx->nextJobID,
                 jobID);
+    mtctx->jobs[jobID].workerActive = 1;   /* before posting : the worker may finish before POOL_tryAdd() returns */
     if (POOL_tryAdd(mtctx->factory, ZSTDMT_compressionJob, &mtctx->jobs[jobID])) {
         mtctx->nextJobID++;
         mtctx->jobReady = 0;
     } else {
         DEBUGLOG(5, "ZSTDMT_createCompressionJob: no worker available for job %u", mtctx->nextJobID);
+        mtctx->jobs[jobID].workerActive = 0;
         mtctx->jobReady = 1;
     }
     return 0;
